@@ -5,9 +5,14 @@ Pipeline (DESIGN.md 7/C05; shared machinery in lib/pathset_common.py):
      <= Depth steps from {tick with any lookup answer (any subset, any lifetime per path, empty, error), report,
      ingest, send, advance}: PolicyHonoured, Provenance, ActiveInCache (+ all other invariants of the family).
   2. the same model in generation mode -> every history replayed on the REAL per-pair path set (VerifPathSet hook,
-     injected clock, scripted PathFetcher) with (i) a closure predicate keyed by fingerprint, (ii) a real sciparse
-     AclPolicy over paths with metadata + one path WITHOUT metadata (must be rejected), (iii) a policy whose
-     evaluation always fails (nothing may be handed out).  After every step the P-monitors are evaluated on the
+     injected clock, scripted PathFetcher) with 0, 1, 2 and 3 attached policies of mixed kinds - a real sciparse
+     AclPolicy, a real sciparse HopPatternPolicy, an arbitrary closure predicate over the path object, a policy
+     whose evaluation always fails - with the rejecting policy first / middle / last, attached through the policy
+     vector or through PathStrategy::add_policy.  The policy verdict is an attribute of the LOOKUP RESULT: the same
+     fingerprint may come back as an object the policies reject (no metadata, metadata naming a denied AS, lower
+     MTU).  HandedOk is evaluated on the REAL returned object (and on the object in the slot) by calling every
+     attached real policy directly (AclPolicy/HopPatternPolicy::path_allowed, the closure), never through
+     PathStrategy::predicate.  After every step the P-monitors are evaluated on the
      real slot and on the paths really returned by MultiPathManager::cached_path and ::path; the projected state
      is compared with the spec (conformance -> DRIFT only).
   3. seeded worker-faithful random histories on the real object -> P-monitors + TLC trace validation (Trace_PathSet).
@@ -27,8 +32,9 @@ def run(c):
         return pc.replay_one(c, "C05", binp)
     c.assumptions += [
         "1 model tick = 30 s; expiries, thresholds, delays on that grid; backoff {1,x2,max 3 ticks}, jitter 0",
-        "policy ground truth: closure mode = membership in the allowed fingerprint set; ACL mode = the path crosses AS 1-666 "
-        "(denied by '- 1-666 +') or carries no metadata; the semantics of the policy languages themselves is C16",
+        "policy verdict = direct evaluation of every attached real policy object on the returned/slot object (Err = rejected); "
+        "cross-checked with the verdict by construction (path 4 crosses AS 1-666, path 3 has 4 AS hops, path 2 leaves through "
+        "interface 5; variants nometa/bad666/lowmtu); the semantics of the policy languages themselves is C16",
         "hand-out observed through MultiPathManager::cached_path and ::path (= PathManager::path_wait) of a manager whose only "
         "path set is driven step by step through the guarded VerifPathSet hook; real-time scheduling is C20",
         "TLC 1.8.0 / CommunityModules Json, IOUtils",
@@ -36,23 +42,41 @@ def run(c):
     c.cov["rule"] = ("replayed histories: one per distinct state of the bounded state graph, strict prefixes dropped; non-trivial = "
                      "history with >= 2 lookups or a report that is ingested; traces: same rule per recorded run")
     depth = 6 if thorough else 5
-    exps = (1, 3, 6) if thorough else (1, 3)
-    # ---- 1. exhaustive
-    pc.mc_run(c, "C05", "mc_A", u="A", depth=depth, exp_choices=exps, report_set=(1,), horizon=9)
+    exps = (1, 3)
+    # ---- 1. exhaustive: the policy verdict is an attribute of the LOOKUP RESULT (path 1 may come back as an object the
+    #         policies reject: metadata missing / changed), path 4 is rejected by identity
+    pc.mc_run(c, "C05", "mc_A", u="A", policy="acl", bad_set=(1,), depth=depth, exp_choices=exps, report_set=(1,), horizon=9)
+    if thorough:
+        pc.mc_run(c, "C05", "mc_A_exp3", u="A", policy="acl", bad_set=(1, 2), depth=5, exp_choices=(1, 3, 6), report_set=(1,), horizon=9)
+    # three policies attached: only path 1 is admissible
+    pc.mc_run(c, "C05", "mc_A_3pol", u="A", policy="acl+hop+closure", bad_set=(1,), depth=depth, exp_choices=exps, report_set=(), horizon=9)
+    # oracle self-check: a manager that skips the filter for fingerprints it already caches must violate PolicyHonoured
+    pc.mc_run(c, "C05", "oracle_filter", u="A", policy="acl", bad_set=(1,), depth=4, exp_choices=(1, 3), report_set=(), horizon=9,
+              filter_all=False, expect=["PolicyHonoured"], oracle=True, invariants=["PolicyHonoured"])
     c.cov["exhaustive"] = True
-    # ---- 2. generation -> replay
+    # ---- 2. generation -> replay with 0..3 attached REAL policies of mixed kinds, the rejecting one first / middle / last,
+    #         attached through the policy vector or through PathStrategy::add_policy
     nrep = 0
     nontriv = set()
     steps = 0
     outcomes = {}
     spec_outcomes = {}
+    d1 = depth - 1
     gens = [
-        dict(name="gen_closure", policy="closure", depth=depth - 1 if not thorough else depth - 1, exp_choices=exps),
-        dict(name="gen_acl_nometa", policy="acl", nometa=(2,), allowed=(1, 3), depth=depth - 1, exp_choices=(1, 3)),
-        dict(name="gen_failing", policy="failing", allowed=(), depth=4, exp_choices=(3,)),
+        dict(name="gen_acl", policy="acl", bad_set=(1,), depth=d1, exp_choices=(1, 3, 6) if thorough else exps, report_set=(1,)),
+        dict(name="gen_none", policy="none", depth=4, exp_choices=(3,), report_set=()),
+        dict(name="gen_closure", policy="closure", bad_set=(1,), depth=4, exp_choices=exps, report_set=(), attach="add"),
+        dict(name="gen_acl_closure", policy="acl+closure", bad_set=(1,), depth=4, exp_choices=exps, report_set=()),
+        dict(name="gen_closure_acl", policy="closure+acl", bad_set=(1,), depth=4, exp_choices=exps, report_set=(), attach="add"),
+        dict(name="gen_acl_hop_closure", policy="acl+hop+closure", bad_set=(1,), depth=d1, exp_choices=exps, report_set=()),
+        dict(name="gen_hop_closure_acl", policy="hop+closure+acl", bad_set=(1,), depth=4, exp_choices=exps, report_set=(), attach="add"),
+        dict(name="gen_closure_acl_hop", policy="closure+acl+hop", bad_set=(1,), depth=4, exp_choices=exps, report_set=()),
+        dict(name="gen_failing", policy="failing", depth=4, exp_choices=(3,), report_set=()),
+        dict(name="gen_acl_failing", policy="acl+failing", depth=3, exp_choices=(3,), report_set=()),
+        dict(name="gen_failing_acl", policy="failing+acl", depth=3, exp_choices=(3,), report_set=(), attach="add"),
     ]
     for g in gens:
-        st = pc.gen_replay(c, "C05", binp, u="A", report_set=(1,), horizon=9, **g)
+        st = pc.gen_replay(c, "C05", binp, u="A", horizon=9, **g)
         nrep += st["replayed"]
         steps += st["steps"]
         nontriv |= {g["name"] + ":" + k for k in st["nontrivial"]}
@@ -72,8 +96,10 @@ def run(c):
     c.cov["distinct_nontrivial"] = len(nontriv)
     # ---- 3. record -> P-monitors + trace validation
     traces = 0
-    recs = [dict(name="rec_closure", policy="closure", runs=40 if thorough else 12, steps=400 if thorough else 150, salt=51),
-            dict(name="rec_acl", policy="acl", nometa=(2,), runs=40 if thorough else 12, steps=400 if thorough else 150, salt=52)]
+    n = 40 if thorough else 10
+    recs = [dict(name="rec_acl", policy="acl", p_variant=25, runs=n, steps=400 if thorough else 150, salt=51),
+            dict(name="rec_3pol", policy="closure+acl+hop", p_variant=25, runs=n, steps=300 if thorough else 120, salt=52, attach="add"),
+            dict(name="rec_2pol", policy="acl+closure", p_variant=40, runs=n, steps=300 if thorough else 120, salt=53)]
     for r in recs:
         st = pc.record_validate(c, "C05", binp, u="A", **r)
         traces += st["accepted_runs"]
@@ -81,5 +107,7 @@ def run(c):
         c.cov["distinct_nontrivial"] += st["nontrivial"]
         c.cov.setdefault("trace_stats", []).append({k: st[k] for k in ("runs", "events", "accepted_runs", "rejected", "nontrivial")})
     c.cov["traces_validated_against_impl"] = traces
+    # ---- 4. real MultiPathManager with its real worker task and the real clock, public API only (smoke run, margins >= 5 s)
+    c.cov["evaluations"] += pc.realtime_smoke(c, "C05", binp)
     pc.binding_selftest(c, binp)
     c.sample({"trace_event": "tick/report/ingest/send/adv with the projected state after the step, see spec/PathManager/Trace_PathSet.tla"})
